@@ -285,16 +285,34 @@ class ExprMixin:
                 out.append((s, VStr(z3.Concat(*acc))))
         return out
 
+    def _display_items(self, node, st):
+        """elements of a list/tuple display; `*x` is spliced when x has a concrete spine"""
+        starred = [isinstance(e, ast.Starred) for e in node.elts]
+        if not any(starred):
+            return self.ev_list(node.elts, st)
+        out = []
+        for s, vals in self.ev_list([e.value if isinstance(e, ast.Starred) else e for e in node.elts], st):
+            if isinstance(vals, Raised):
+                out.append((s, vals))
+                continue
+            items = []
+            for is_star, v in zip(starred, vals):
+                if not is_star:
+                    items.append(v)
+                    continue
+                spine = self.concrete_items(s, v)
+                if spine is None:
+                    raise Unsupported("starred operand without a concrete spine in a display")
+                items.extend(spine)
+            out.append((s, items))
+        return out
+
     def e_Tuple(self, node, st):
-        if any(isinstance(e, ast.Starred) for e in node.elts):
-            raise Unsupported("starred in tuple")
-        return [(s, v if isinstance(v, Raised) else VTuple(tuple(v))) for s, v in self.ev_list(node.elts, st)]
+        return [(s, v if isinstance(v, Raised) else VTuple(tuple(v))) for s, v in self._display_items(node, st)]
 
     def e_List(self, node, st):
-        if any(isinstance(e, ast.Starred) for e in node.elts):
-            raise Unsupported("starred in list")
         out = []
-        for s, v in self.ev_list(node.elts, st):
+        for s, v in self._display_items(node, st):
             if isinstance(v, Raised):
                 out.append((s, v))
             else:
